@@ -445,6 +445,10 @@ structure Reparsed (f t : Flash) (img B : Bytes) (pol : Nat) (mer : Region) (fpt
     mer2.buf = mer.buf.take ((nb - r1.base) * 4096) ∧ fpt2 = parseFPT mer2.buf ∧ free2 = freeOfOpt fpt2 ∧
     r1.base < nb
   resave : asmDesc t.desc ++ B.drop descLen = B
+  /-- (wp-c12c) the saved image is the input image from 4096 on; the ME buffer is the image at the ME extent -/
+  Bdrop : B.drop descLen = img.drop descLen
+  merbuf : mer.buf = slice img (r1.base * 4096) ((r1.limit + 1) * 4096 - r1.base * 4096)
+  imglen : descLen ≤ img.length
 
 set_option maxRecDepth 10000 in
 theorem reparse_struct (p0 : Nat) (img : Bytes) (f f' g' t : Flash) (pol pa pa' q0 q : Nat)
@@ -533,7 +537,8 @@ theorem reparse_struct (p0 : Nat) (img : Bytes) (f f' g' t : Flash) (pol pa pa' 
       hmlen := hmlen, her := her, hfpt := hfpt, hfree := by rw [← freeOfOpt_eq]; exact hfree, u0 := hu0, u1 := hu1,
       r0valid := hr0v, r1valid := hvm, inb := hendb, nrok := hnrok,
       wt := wt, tregs := htregs, tnr := by rw [htdesc, hdesc']; rfl, Blen := houtlen, tpay := tpay, tcase := tcase,
-      mebuf := ?_, resave := by rw [htdesc, hasm', ← htake, List.take_append_drop] }, ?_, ?_, ?_⟩
+      mebuf := ?_, resave := by rw [htdesc, hasm', ← htake, List.take_append_drop],
+      Bdrop := hdrop, merbuf := hc, imglen := himg4096 }, ?_, ?_, ?_⟩
   · intro mer2 mer2mem fpt2 free2 hmb2
     have hP2 : Parsed t.desc.regs g'.buf mer2 := by
       rcases tcase mer2 mer2mem with h | h
